@@ -644,12 +644,16 @@ impl Store {
                 let tags = filter.tags()?;
                 for mut tag in tags.iter() {
                     if let Some(tag0) = tag.next() {
+                        // only single-letter tags are indexed; an empty name matches nothing here
+                        let Some(&tagletter) = tag0.first() else {
+                            continue;
+                        };
                         // a constraint matches if the event has any one of its values,
                         // so every value's range has to be scanned
                         for tagvalue in tag {
                             let iter = self.indexes.atc_iter(
                                 author,
-                                tag0[0],
+                                tagletter,
                                 tagvalue,
                                 since,
                                 filter.until(),
@@ -701,12 +705,16 @@ impl Store {
                 let tags = filter.tags()?;
                 for mut tag in tags.iter() {
                     if let Some(tag0) = tag.next() {
+                        // only single-letter tags are indexed; an empty name matches nothing here
+                        let Some(&tagletter) = tag0.first() else {
+                            continue;
+                        };
                         // a constraint matches if the event has any one of its values,
                         // so every value's range has to be scanned
                         for tagvalue in tag {
                             let iter = self.indexes.ktc_iter(
                                 kind,
-                                tag0[0],
+                                tagletter,
                                 tagvalue,
                                 since,
                                 filter.until(),
@@ -757,12 +765,20 @@ impl Store {
             let tags = filter.tags()?;
             for mut tag in tags.iter() {
                 if let Some(tag0) = tag.next() {
+                    // only single-letter tags are indexed; an empty name matches nothing here
+                    let Some(&tagletter) = tag0.first() else {
+                        continue;
+                    };
                     // a constraint matches if the event has any one of its values,
                     // so every value's range has to be scanned
                     for tagvalue in tag {
-                        let iter =
-                            self.indexes
-                                .tc_iter(tag0[0], tagvalue, since, filter.until(), &txn)?;
+                        let iter = self.indexes.tc_iter(
+                            tagletter,
+                            tagvalue,
+                            since,
+                            filter.until(),
+                            &txn,
+                        )?;
 
                         let mut rangecount = 0;
 
